@@ -166,6 +166,11 @@ impl<B: Bound> Intervals<B> {
             capacity: CAPACITY,
             intervals: vec![],
         };
+        #[cfg(qrlew_verif)]
+        let result = Intervals {
+            capacity: crate::verif::intervals_capacity().unwrap_or(CAPACITY),
+            ..result
+        };
         // Intervals are shortened to enforce capacity
         result.to_simple_superset()
     }
